@@ -94,52 +94,79 @@ fn sched() -> &'static Sched {
 #[derive(Clone, Copy, Debug, PartialEq, Eq)]
 struct Config {
     threads: usize,
+    /// Tag::new calls per thread (before the gets)
     creations: usize,
-    with_static: bool,
+    /// number of StaticTags shared by the threads (0, 1 or 2); even threads get() them in the
+    /// order 0,1 and odd threads in the order 1,0
+    statics: usize,
+    /// rounds of get() per thread (2 = every static is resolved a second time by the same thread)
+    gets: usize,
 }
 impl Config {
+    const fn new(threads: usize, creations: usize, statics: usize, gets: usize) -> Config {
+        Config { threads, creations, statics, gets }
+    }
     fn name(&self) -> String {
-        format!("{} threads x ({} Tag::new{})", self.threads, self.creations, if self.with_static { " + StaticTag::get" } else { "" })
+        let g = match (self.statics, self.gets) {
+            (0, _) | (_, 0) => String::new(),
+            (1, 1) => " + StaticTag::get".to_string(),
+            (1, n) => format!(" + {n} x StaticTag::get"),
+            (k, 1) => format!(" + get on {k} StaticTags, opposite orders"),
+            (k, n) => format!(" + {n} x get on {k} StaticTags, opposite orders"),
+        };
+        format!("{} threads x ({} Tag::new{g})", self.threads, self.creations)
     }
     fn json(&self) -> Value {
-        json!({"threads": self.threads, "creations": self.creations, "with_static": self.with_static})
+        json!({"threads": self.threads, "creations": self.creations, "statics": self.statics, "gets": self.gets, "with_static": self.statics > 0})
+    }
+    fn from_json(v: &Value) -> Config {
+        let statics = v["statics"].as_u64().map(|x| x as usize).unwrap_or(if v["with_static"] == true { 1 } else { 0 });
+        Config { threads: v["threads"].as_u64().unwrap_or(2) as usize, creations: v["creations"].as_u64().unwrap_or(1) as usize, statics, gets: v["gets"].as_u64().unwrap_or(1) as usize }
     }
 }
 
 static EXECS: AtomicU64 = AtomicU64::new(0);
 static CONTENDED: AtomicU64 = AtomicU64::new(0);
 /// outcome -> number of schedules. An outcome is, per thread, the ranks of the tags it created (in
-/// creation order) and the rank of the value its `get()` returned, ranks taken among all tag values
-/// of the execution (the global counter keeps counting across executions, ranks do not).
+/// creation order) and the ranks of the values its `get()` calls returned (100 + rank), ranks taken
+/// among all tag values of the execution (the global counter keeps counting across executions).
 static OUTCOMES: std::sync::Mutex<BTreeMap<Vec<Vec<usize>>, u64>> = std::sync::Mutex::new(BTreeMap::new());
 
 fn body(c: Config) {
     EXECS.fetch_add(1, Ordering::Relaxed);
     sched().reset();
     // `shuttle::sync::Arc` is std's Arc: no scheduling points of its own.
-    let st = shuttle::sync::Arc::new(StaticTag::new());
+    let st = shuttle::sync::Arc::new([StaticTag::new(), StaticTag::new()]);
     let hs: Vec<_> = (0..c.threads)
-        .map(|_| {
+        .map(|t| {
             let st = st.clone();
             shuttle::thread::spawn(move || {
                 let mut v = vec![];
                 for _ in 0..c.creations {
                     v.push(Tag::new());
                 }
-                let s = if c.with_static { Some(st.get()) } else { None };
-                (v, s)
+                let mut g: Vec<(usize, Tag)> = vec![];
+                for _ in 0..c.gets {
+                    for i in 0..c.statics {
+                        let which = if t % 2 == 0 { i } else { c.statics - 1 - i };
+                        g.push((which, st[which].get()));
+                    }
+                }
+                (v, g)
             })
         })
         .collect();
-    let results: Vec<(Vec<Tag>, Option<Tag>)> = hs.into_iter().map(|h| h.join().unwrap()).collect();
-    // every get() returned the same value
-    let statics: Vec<Tag> = results.iter().filter_map(|r| r.1).collect();
-    assert!(statics.windows(2).all(|w| w[0] == w[1]), "C20: StaticTag::get returned different values to different threads: {statics:?}");
-    // all created tags (the explicit ones and the one behind the static tag) are pairwise distinct
+    let results: Vec<(Vec<Tag>, Vec<(usize, Tag)>)> = hs.into_iter().map(|h| h.join().unwrap()).collect();
+    // every get() on one static tag returned the same value (across threads and across repeated calls)
     let mut all: Vec<Tag> = results.iter().flat_map(|r| r.0.iter().copied()).collect();
-    if let Some(s) = statics.first() {
-        all.push(*s);
+    for which in 0..c.statics {
+        let vals: Vec<Tag> = results.iter().flat_map(|r| r.1.iter().filter(|g| g.0 == which).map(|g| g.1)).collect();
+        assert!(vals.windows(2).all(|w| w[0] == w[1]), "C20: StaticTag::get returned different values for one static tag: {vals:?}");
+        if let Some(s) = vals.first() {
+            all.push(*s);
+        }
     }
+    // all created tags (the explicit ones and the one behind each static tag) are pairwise distinct
     let mut sorted = all.clone();
     sorted.sort();
     let before = sorted.len();
@@ -150,7 +177,7 @@ fn body(c: Config) {
         CONTENDED.fetch_add(1, Ordering::Relaxed);
     }
     let rank = |t: &Tag| sorted.binary_search(t).unwrap();
-    let outcome: Vec<Vec<usize>> = results.iter().map(|(v, s)| v.iter().map(rank).chain(s.iter().map(|t| 100 + rank(t))).collect()).collect();
+    let outcome: Vec<Vec<usize>> = results.iter().map(|(v, g)| v.iter().map(rank).chain(g.iter().map(|t| 100 + rank(&t.1))).collect()).collect();
     *OUTCOMES.lock().unwrap().entry(outcome).or_insert(0) += 1;
 }
 
@@ -274,7 +301,7 @@ fn main() {
             // a replay file of the sequential families: the c20 binary handles it
             std::process::exit(0);
         }
-        let c = Config { threads: v["case"]["threads"].as_u64().unwrap_or(2) as usize, creations: v["case"]["creations"].as_u64().unwrap_or(1) as usize, with_static: v["case"]["with_static"] == true };
+        let c = Config::from_json(&v["case"]);
         let schedule = v["case"]["schedule"].as_str().unwrap_or("").to_string();
         let mut cfg = shuttle::Config::new();
         cfg.failure_persistence = shuttle::FailurePersistence::None;
@@ -308,13 +335,17 @@ fn main() {
 
     // ---- exploration
     let mut configs = vec![
-        Config { threads: 2, creations: 1, with_static: true },
-        Config { threads: 2, creations: 2, with_static: true },
-        Config { threads: 3, creations: 1, with_static: false },
+        Config::new(2, 1, 1, 1),
+        Config::new(2, 2, 1, 1),
+        Config::new(3, 1, 0, 0),
+        // a second instance of the kind: two static tags resolved in opposite orders; the same static tag resolved twice
+        Config::new(2, 0, 2, 1),
+        Config::new(2, 0, 1, 2),
     ];
     if tier == "thorough" {
-        configs.push(Config { threads: 2, creations: 3, with_static: false });
-        configs.push(Config { threads: 3, creations: 1, with_static: true });
+        configs.push(Config::new(2, 3, 0, 0));
+        configs.push(Config::new(2, 1, 2, 1));
+        configs.push(Config::new(3, 1, 1, 1));
     }
     let replay_dir = out.join("replays");
     let _ = std::fs::create_dir_all(&replay_dir);
@@ -338,7 +369,7 @@ fn main() {
         total_outcomes += e.outcomes.len() as u64;
         let samples: Vec<Value> = e.outcomes.iter().take(4).map(|(o, n)| json!({"outcome": outcome_text(o), "schedules": n})).collect();
         conf_json.push(json!({
-            "name": c.name(), "threads": c.threads, "creations_per_thread": c.creations, "with_static_tag": c.with_static,
+            "name": c.name(), "threads": c.threads, "creations_per_thread": c.creations, "static_tags": c.statics, "get_rounds": c.gets,
             "schedules": e.schedules, "schedules_with_contention": e.contended, "distinct_outcomes": e.outcomes.len(),
             "sample_outcomes": samples, "wall_s": (e.wall_s * 100.0).round() / 100.0, "exhaustive": e.failure.is_none(),
         }));
@@ -348,7 +379,7 @@ fn main() {
             let expected = "all created tags pairwise distinct, every StaticTag::get() returns the same value, no deadlock";
             let v = json!({
                 "property": "C20", "family": "tags-schedules", "idx": e.schedules,
-                "case": {"kind": "tags", "threads": c.threads, "creations": c.creations, "with_static": c.with_static, "schedule": schedule,
+                "case": {"kind": "tags", "threads": c.threads, "creations": c.creations, "statics": c.statics, "gets": c.gets, "with_static": c.statics > 0, "schedule": schedule,
                          "text": format!("{}; the failing execution is schedule number {} of the depth-first enumeration", c.name(), e.schedules)},
                 "expected": expected, "observed": msg,
                 "note": "schedule is shuttle's encoded schedule string; replay with shuttle::replay(body, schedule) or the command below",
